@@ -108,6 +108,14 @@ def run_unit(unit, drop_hints=(), suffix=""):
             continue
         q = ent.get("fn")
         ek = ent.get("kind")
+        if (q is None or q not in fns) and kind == "postcondition":
+            # ensures declared on a trait method (prelude text): the body that failed it is named by a secondary label
+            for (ln, lab, txt) in e["labels"]:
+                ent2 = lm[ln - 1] if 0 < ln <= len(lm) else None
+                if ent2 and ent2.get("fn") in fns:
+                    q = ent2["fn"]
+                    ek = "trait-contract"
+                    break
         if ek == "canary":
             oc.canary_ok[q] = oc.canary_ok.get(q, 0) + 1
             continue
@@ -132,7 +140,7 @@ def run_unit(unit, drop_hints=(), suffix=""):
                     fail["props"] = c.props
                     break
             if fail["clause"] is None:
-                fail["clause"] = "ensures:" + t[:60]
+                fail["clause"] = ("trait-ensures:" if ek == "trait-contract" else "ensures:") + t[:60]
         if kind == "assertion" and ek == "hint":
             oc.hint_failures.setdefault(q, []).append(fail)
             continue
